@@ -392,7 +392,7 @@ def _short(x):
 # ---------------------------------------------------------------------------
 
 
-def _long_fasta(path, L, width=60, narrow_first=False):
+def _long_fasta(path, L, width=60, narrow_first=False, void_record=False):
     line = (b"ACGTTGCAAC" * (width // 10 + 1))[:width] + b"\n"
     with open(path, "wb") as fh:
         if narrow_first:
@@ -408,6 +408,8 @@ def _long_fasta(path, L, width=60, narrow_first=False):
         fh.write(line * r)
         if rest:
             fh.write(line[:rest] + b"\n")
+        if void_record:
+            fh.write(b">void no residues\n")  # cannot be stored in the .agp cache
         fh.write(b">tail\nACGTNNACGT\n")
 
 
@@ -423,18 +425,29 @@ def measure_long(bprime, factor, what, root):
 
     L = bprime * factor
     mixed = what == "index_mixed_width"
-    fa = Path(root) / f"long{L}{'m' if mixed else ''}.fa"
+    void = what == "autoload_warm"
+    fa = Path(root) / f"long{L}{'m' if mixed else ''}{'v' if void else ''}.fa"
     if not fa.exists():
-        _long_fasta(fa, L, width=250 if mixed else 60, narrow_first=mixed)
+        _long_fasta(fa, L, width=250 if mixed else 60, narrow_first=mixed, void_record=void)
     idx = None
-    if not what.startswith("index"):
+    if void:
+        # build the cache (cold), make sure it counts as newer, then measure the warm load
+        index_mod.FastaIndex(fa, bprime).auto_load()
+        st = os.stat(fa)
+        os.utime(fa, ns=(st.st_mtime_ns - 5_000_000_000, st.st_mtime_ns - 5_000_000_000))
+    elif not what.startswith("index"):
         idx, _asm = index_mod.index_fasta_file(fa, 250_000)
     gc.collect()
     tracemalloc.start()
     try:
         base = tracemalloc.get_traced_memory()[0]
         tracemalloc.reset_peak()
-        if what.startswith("index"):
+        if void:
+            fi = index_mod.FastaIndex(fa, bprime)
+            fi.auto_load()
+            if "void" not in fi.index or len(fi.assembly.scaffolds) != 3:
+                raise Bad("differential_index", "autoload_warm", "warm auto_load lost the record without residues")
+        elif what.startswith("index"):
             index_mod.index_fasta_file(fa, bprime)
         else:
             fi = index_mod.FastaIndex(fa, bprime)
@@ -460,7 +473,7 @@ def measure_long(bprime, factor, what, root):
     return peak
 
 
-LONG_WHATS = ["index", "stream_fwd", "stream_rev", "stream_gap", "index_mixed_width"]
+LONG_WHATS = ["index", "stream_fwd", "stream_rev", "stream_gap", "index_mixed_width", "autoload_warm"]
 
 
 def long_case(bprime, what, run_seed, tier):
